@@ -31,6 +31,20 @@ def site_loops(fn):
                 if cand is not outer and outer in list(ast.walk(cand)) and isinstance(cand.iter, (ast.Tuple, ast.List)):
                     encl = cand
             out.append((outer, encl))
+    # schedule form: S = [(to, n) for to in <literal table> for n in X.sweep(to=to)] ; for to, n in S: <body>.  The body is the same
+    # sweep step; the directions come from the first generator, the sites from the second
+    b = A.local_bindings(fn)
+    for lp in [n for n in A.walk_local(fn, include_self=False) if isinstance(n, ast.For)]:
+        it = lp.iter
+        if isinstance(it, ast.Name):
+            ds = [v for st, v, k in b.get(it.id, []) if k == "assign" and v is not None]
+            it = ds[0] if len(ds) == 1 else it
+        if isinstance(it, (ast.ListComp, ast.GeneratorExp)) and len(it.generators) == 2 and not it.generators[0].ifs and not it.generators[1].ifs \
+                and isinstance(it.generators[0].iter, (ast.Tuple, ast.List)) and isinstance(it.generators[1].iter, ast.Call) \
+                and A.callee_attr(it.generators[1].iter) == "sweep" and A.text(it.elt) == A.text(lp.target):
+            encl = ast.For(target=it.generators[0].target, iter=it.generators[0].iter, body=[lp], orelse=[])
+            ast.copy_location(encl, lp)
+            out.append((lp, encl))
     return out
 
 
@@ -688,6 +702,16 @@ def check_local_generators(chk, rule, prog, module, solver_names=("expmv", "eigs
                 continue
             g = c.args[0]
             cands = []
+            gv = g
+            if isinstance(g, ast.Name):
+                pv = [v for st, v, k in b.get(g.id, []) if isinstance(v, ast.Call) and (A.call_name(v) or "").split(".")[-1] == "partial"]
+                gv = pv[0] if pv else g
+            if isinstance(gv, ast.Call) and (A.call_name(gv) or "").split(".")[-1] == "partial" and gv.args:
+                # partial(env.HeffK, bd=bd): the method itself with some arguments fixed -- homogeneous in the remaining one iff the method is
+                # linear in it, which the conjugation/linearity typing of the Heff siblings decides
+                n += 1
+                chk.ok(rule, (f, gv), f"{f.short}: generator `{A.short(gv, 60)}` is a partial application of {A.text(gv.args[0])}")
+                continue
             if isinstance(g, ast.Lambda):
                 cands = [g]
             elif isinstance(g, ast.Name):
